@@ -726,6 +726,83 @@ def dynamicCastStep {ρ : Type} (ic : Nat × (Unit → K σ (Option ρ))) (resul
 def dynamicCast {ρ : Type} (casts : List (Unit → K σ (Option ρ))) : K σ (Option (Nat × ρ)) :=
   foldBreak dynamicCastStep ((List.range casts.length).zip casts) none
 
+/-! ## the valueless state (`is_invalid()`)
+
+A `std::variant` becomes valueless when an assignment that changes the alternative destroys the old value and the
+construction of the new one throws.  `none` is that state. -/
+abbrev VarV (n : Nat) (τ : Fin n → Type) := Option (Var n τ)
+
+namespace VarV
+variable {n : Nat} {τ : Fin n → Type}
+
+/-- `is_invalid()` = `type_index() == std::variant_npos` -/
+def isInvalid (v : VarV n τ) : Bool :=
+  match v with
+  | none => true
+  | some _ => false
+
+/-- `type_index()`; `none` = `std::variant_npos` -/
+def typeIndex (v : VarV n τ) : Option Nat := v.map Var.typeIndex
+
+/-- `holds_type<T_j>` = `std::holds_alternative`: false for every type when valueless -/
+def holdsType (j : Fin n) (v : VarV n τ) : Bool :=
+  match v with
+  | none => false
+  | some w => Var.holdsType j w
+
+/-- `to_optional<T_j>` / `to_optional_ref<T_j>`: guarded by `holds_type`, so nothing (and no `get_unsafe`) when valueless -/
+def toOptional (j : Fin n) (v : VarV n τ) : K σ (Option (τ j)) :=
+  if holdsType j v then
+    match v with
+    | some w => do
+      let x ← Var.getUnsafe j w
+      pure (some x)
+    | none => K.fault .emptyDeref
+  else pure none
+
+/-- `apply` / `match` / `type_info` / `operator<<`: `std::visit` throws `std::bad_variant_access` when valueless -/
+def apply (f : (i : Fin n) → τ i → K σ β) (v : VarV n τ) : K σ β :=
+  match v with
+  | some w => Var.apply f w
+  | none => K.fault (.exception (.other "std"))
+
+/-- `compare(left, right, cmp)` = `apply` on the right one, `to_optional` on the left one -/
+def compare (l r : VarV n τ) (cmp : (i : Fin n) → τ i → τ i → K σ Bool) : K σ Bool :=
+  apply (fun j rInner => do
+    let o ← toOptional j l
+    Opt.maybe o (fun _ => pure false) (fun lInner => cmp j lInner rInner)) r
+
+/-- `operator==` of `std::variant`: two valueless variants are equal -/
+def eq (eqv : (i : Fin n) → τ i → τ i → Bool) (l r : VarV n τ) : Bool :=
+  match l, r with
+  | none, none => true
+  | some a, some b => Var.eq eqv a b
+  | _, _ => false
+
+/-- `operator<` of `std::variant`: a valueless variant is smaller than every other one -/
+def lt (ltv : (i : Fin n) → τ i → τ i → Bool) (l r : VarV n τ) : Bool :=
+  match l, r with
+  | _, none => false
+  | none, some _ => true
+  | some a, some b => Var.lt ltv a b
+
+/-- copy assignment `dst = src`, where `ctorThrows` says whether copy-constructing the source's value throws
+(its copy *assignment* does not).  Same alternative: element assignment.  Otherwise the old value is destroyed first
+and the new one constructed in place: a throw leaves the target valueless.  Result: the target afterwards and whether
+the exception left the assignment. -/
+def assign (dst src : VarV n τ) (ctorThrows : Bool) : VarV n τ × Bool :=
+  match src with
+  | none => (none, false)
+  | some s =>
+    match dst with
+    | some d =>
+      if d.idx = s.idx then (some s, false)
+      else if ctorThrows then (none, true)
+      else (some s, false)
+    | none => if ctorThrows then (none, true) else (some s, false)
+
+end VarV
+
 /-! ## the implicitly defined special members (copy / move construction and assignment) and `std::swap` -/
 
 /-- `dst = src` / `T dst{src}`: the target takes the value of the source; the result is (target, source as an lvalue
